@@ -723,6 +723,81 @@ struct Outcome {
     /// content of the target store afterwards (sorted; in order for Vec)
     store: Option<Vec<MQ>>,
     written: Option<Vec<u8>>,
+    /// an access path of the target store whose view differs from its enumeration
+    store_path: Option<String>,
+}
+
+/// The content of a graph store as every access path shows it: the enumeration, and for each
+/// of the seven bound/unbound shapes the union of `triples_matching` over the terms present.
+/// Returns the enumeration and the first access path whose view differs from it.
+fn graph_views<G: sophia_api::graph::Graph>(g: &G) -> (Vec<MQ>, Option<String>) {
+    use sophia_api::term::matcher::Any;
+    let all = sorted_set(collect_graph(g));
+    let mut bad = None;
+    for shape in 1u8..8 {
+        let mut keys: BTreeSet<[Option<MT>; 3]> = BTreeSet::new();
+        for q in &all {
+            keys.insert([
+                (shape & 1 != 0).then(|| q.s.clone()),
+                (shape & 2 != 0).then(|| q.p.clone()),
+                (shape & 4 != 0).then(|| q.o.clone()),
+            ]);
+        }
+        let mut view = vec![];
+        for [s, p, o] in keys {
+            let st = |x: &Option<MT>| x.as_ref().map(|t| t.to_simple());
+            let (s, p, o) = (st(&s), st(&p), st(&o));
+            let it: Vec<MQ> = match (&s, &p, &o) {
+                (Some(s), None, None) => g.triples_matching([s.clone()], Any, Any).map(|t| MQ::from_triple(t.expect("graph error"))).collect(),
+                (None, Some(p), None) => g.triples_matching(Any, [p.clone()], Any).map(|t| MQ::from_triple(t.expect("graph error"))).collect(),
+                (Some(s), Some(p), None) => g.triples_matching([s.clone()], [p.clone()], Any).map(|t| MQ::from_triple(t.expect("graph error"))).collect(),
+                (None, None, Some(o)) => g.triples_matching(Any, Any, [o.clone()]).map(|t| MQ::from_triple(t.expect("graph error"))).collect(),
+                (Some(s), None, Some(o)) => g.triples_matching([s.clone()], Any, [o.clone()]).map(|t| MQ::from_triple(t.expect("graph error"))).collect(),
+                (None, Some(p), Some(o)) => g.triples_matching(Any, [p.clone()], [o.clone()]).map(|t| MQ::from_triple(t.expect("graph error"))).collect(),
+                (Some(s), Some(p), Some(o)) => g.triples_matching([s.clone()], [p.clone()], [o.clone()]).map(|t| MQ::from_triple(t.expect("graph error"))).collect(),
+                _ => unreachable!(),
+            };
+            view.extend(it);
+        }
+        if sorted_set(view) != all && bad.is_none() {
+            bad = Some(format!("triples_matching({}{}{})", if shape & 1 != 0 { "s" } else { "*" }, if shape & 2 != 0 { "p" } else { "*" }, if shape & 4 != 0 { "o" } else { "*" }));
+        }
+    }
+    (all, bad)
+}
+
+/// Same for a dataset store (fifteen shapes over s, p, o, g).
+fn dataset_views<D: sophia_api::dataset::Dataset>(d: &D) -> (Vec<MQ>, Option<String>) {
+    let all = sorted_set(collect_dataset(d));
+    let mut bad = None;
+    for shape in 1u8..16 {
+        let mut keys: BTreeSet<(Option<MT>, Option<MT>, Option<MT>, Option<Option<MT>>)> = BTreeSet::new();
+        for q in &all {
+            keys.insert((
+                (shape & 1 != 0).then(|| q.s.clone()),
+                (shape & 2 != 0).then(|| q.p.clone()),
+                (shape & 4 != 0).then(|| q.o.clone()),
+                (shape & 8 != 0).then(|| q.g.clone()),
+            ));
+        }
+        let mut view = vec![];
+        for (s, p, o, gn) in keys {
+            let tp = |x: &Option<MT>| match x {
+                Some(t) => crate::pat::TPat::One(t.clone()).real(),
+                None => crate::pat::TPat::Any.real(),
+            };
+            let gp = match &gn {
+                Some(g) => crate::pat::GPat::One(g.clone()).real(),
+                None => crate::pat::GPat::Any.real(),
+            };
+            let it = d.quads_matching(tp(&s), tp(&p), tp(&o), gp);
+            view.extend(it.map(|q| MQ::from_quad(q.expect("dataset error"))));
+        }
+        if sorted_set(view) != all && bad.is_none() {
+            bad = Some(format!("quads_matching(shape {shape:04b} of gops)"));
+        }
+    }
+    (all, bad)
 }
 
 fn sorted_set(v: Vec<MQ>) -> Vec<MQ> {
@@ -739,7 +814,8 @@ macro_rules! tiny_graph_sink {
                 g.insert(s, p, o).expect("initial content fits by construction");
             }
             let r = $s.add_to_graph(&mut g);
-            Outcome { res: Some(res_of(r.map(Some))), store: Some(sorted_set(collect_graph(&g))), ..Outcome::default() }
+            let (all, bad) = graph_views(&g);
+            Outcome { res: Some(res_of(r.map(Some))), store: Some(all), store_path: bad, ..Outcome::default() }
         } else {
             let r: StreamResult<TinyFastGraph<$m>, _, _> = $s.collect_triples();
             match r {
@@ -758,7 +834,8 @@ macro_rules! tiny_dataset_sink {
                 d.insert(s, p, o, g).expect("initial content fits by construction");
             }
             let r = $s.add_to_dataset(&mut d);
-            Outcome { res: Some(res_of(r.map(Some))), store: Some(sorted_set(collect_dataset(&d))), ..Outcome::default() }
+            let (all, bad) = dataset_views(&d);
+            Outcome { res: Some(res_of(r.map(Some))), store: Some(all), store_path: bad, ..Outcome::default() }
         } else {
             let r: StreamResult<TinyFastDataset<$m>, _, _> = $s.collect_quads();
             match r {
@@ -849,7 +926,8 @@ fn consume_t<S: TripleSource>(mut s: S, sp: &SinkSpec) -> Outcome {
                 g.insert(s, p, o).expect("FastGraph insert");
             }
             let r = g.remove_all(s);
-            Outcome { res: Some(res_of(r.map(Some))), store: Some(sorted_set(collect_graph(&g))), ..Outcome::default() }
+            let (all, bad) = graph_views(&g);
+            Outcome { res: Some(res_of(r.map(Some))), store: Some(all), store_path: bad, ..Outcome::default() }
         }
         9 | 10 => {
             let mut st = FailStore::new(&sp.init, sp.fail_at);
@@ -969,7 +1047,8 @@ fn consume_q<S: QuadSource>(mut s: S, sp: &SinkSpec) -> Outcome {
                 d.insert(s, p, o, g).expect("FastDataset insert");
             }
             let r = d.remove_all(s);
-            Outcome { res: Some(res_of(r.map(Some))), store: Some(sorted_set(collect_dataset(&d))), ..Outcome::default() }
+            let (all, bad) = dataset_views(&d);
+            Outcome { res: Some(res_of(r.map(Some))), store: Some(all), store_path: bad, ..Outcome::default() }
         }
         9 | 10 => {
             let mut st = FailStore::new(&sp.init, sp.fail_at);
@@ -1543,6 +1622,9 @@ fn judge(ctx: &mut Ctx, case: &Case, plan: &Plan, sp: &SinkSpec, image: &[(usize
             };
             if out.store.as_ref() != Some(&exp_store) {
                 ctx.fail(sig("store-content", plan, sp), ctxt(format!("store content after the call differs from the prefix applied; expected: {}; got: {}", show_seq(&exp_store), show_seq(out.store.as_deref().unwrap_or(&[])))));
+            }
+            if let Some(path) = &out.store_path {
+                ctx.fail(sig("store-access-path", plan, sp), ctxt(format!("after the call, the store's {path} does not show the same content as its enumeration ({})", show_seq(out.store.as_deref().unwrap_or(&[])))));
             }
             if let Res::Ok(c) = &res {
                 if *c != Some(changes) {
